@@ -60,8 +60,18 @@ def gen_history(rng, big):
         else:
             spec['data'][0] = [abs(v) + 0.25 for v in spec['data'][0]]
             spec['data'][1] = [max(min(v, 3.0), -3.0) for v in spec['data'][1]]
+    shared = bool(rng.random() < 0.4)        # constructor inputs alias each other / are reused for a second grid
+    if shared and spec['sys'] == 'c':
+        G.make_shared(rng, spec)
+    elif shared:
+        spec['shared'] = True
+        if isinstance(spec['w'], list) and spec['kind'] != 'reg' and len(spec['data'][0]) == len(spec['w']) and rng.random() < 0.5:
+            spec['w'] = list(spec['data'][0])
     ops = [['new', spec]]
     meta = [(spec['sys'], spec_ndim(spec))]
+    if shared and rng.random() < 0.4:
+        ops.append(['new', dict(spec)])      # a second grid built from the very same arrays
+        meta.append(meta[0])
     nops = int(rng.integers(2, 7 if not big else 10))
     for _ in range(nops):
         i = int(rng.integers(0, len(meta)))
@@ -100,13 +110,13 @@ def angle_of(r):
     return math.atan2(float(Fraction(r['s'])), float(Fraction(r['c'])))
 
 
-def apply_real(grids, op):
+def apply_real(grids, op, pool=None):
     kind = op[0]
     try:
         with warnings.catch_warnings():
             warnings.simplefilter('ignore')
             if kind == 'new':
-                grids.append(G.build(op[1]))
+                grids.append(G.build(op[1], pool))
             elif kind == 'copy':
                 grids.append(grids[op[1]].copy())
             elif kind == 'mat':
@@ -158,21 +168,26 @@ def observe(grids):
 def run_history(case):
     grids = []
     steps = []
+    pool = G.Pool()
     for op in case['ops']:
         before = observe(grids)
-        status = apply_real(grids, op)
-        steps.append({'op': op, 'status': status, 'before': before, 'after': observe(grids)})
+        status = apply_real(grids, op, pool)
+        ch = pool.changed()
+        steps.append({'op': op, 'status': status, 'before': before, 'after': observe(grids),
+                      'caller_changed': [(list(pool.keys[k])[:6], pool.arrays[k].tolist()[:6]) for k in ch]})
         if status != 'ok':
             break
     return steps
 
 
 def model_history_lines(case):
+    """one entry per op: a request line, a list of lines (construction from caller arrays), or None"""
     lines = []
+    mpool = G.Pool()
     for op in case['ops']:
         kind = op[0]
         if kind == 'new':
-            lines.append(G.new_line('C11', op[1]))
+            lines.append(G.new_lines('C11', op[1], mpool))
         elif kind in ('copy', 'mat', 'reverse', 'reversed'):
             lines.append('C11 %s %d' % (kind, op[1]))
         elif kind in ('scale', 'scaled'):
@@ -224,6 +239,9 @@ def oracle_history(steps):
     for st in steps:
         op, status, before, after = st['op'], st['status'], st['before'], st['after']
         name = op[0]
+        if st.get('caller_changed'):
+            bad.append(('caller-array-changed', '%s changed an array owned by the caller (array %r is now %r)' % (
+                name, st['caller_changed'][0][0], st['caller_changed'][0][1])))
         src = before[op[1]] if name != 'new' else None
         ndim = src['points'].shape[1] if src is not None else None
         if status != 'ok':
@@ -293,6 +311,13 @@ def oracle_history(steps):
             seen.add(k)
             out.append((k, w))
     return out
+
+
+def aliased(spec):
+    arrs = [tuple(a) for a in (spec['data'] if spec['kind'] != 'reg' else [spec['data'][0], spec['data'][2]])]
+    if isinstance(spec['w'], list):
+        arrs.append(tuple(spec['w']))
+    return len(set(arrs)) < len(arrs)
 
 
 def base(name):
@@ -530,8 +555,24 @@ def S(sysm, kind, data, w=None):
     return {'sys': sysm, 'kind': kind, 'data': data, 'w': w, 'int': False}
 
 
+def SH(sysm, kind, data, w=None):
+    d = S(sysm, kind, data, w)
+    d['shared'] = True
+    return d
+
+
 R345 = {'c': '3/5', 's': '4/5'}
+AX = [0.0, 1.0, 3.0]
 DIRECTED = [
+    # aliased constructor inputs: one array for both axes / for delta and zero / for weights and a column / for two grids
+    {'family': 'history', 'ops': [['new', SH('c', 'sep', [AX, AX])], ['scaled', 0, ['s', 2.0]], ['copy', 0], ['scale', 2, ['v', [2.0, 0.5]]], ['shift', 0, ['v', [1.0, 0.0]]],
+                                  ['scale', 0, ['s', -2.0]], ['reverse', 0], ['rotated', 0, R345]]},
+    {'family': 'history', 'ops': [['new', SH('c', 'sep', [AX, AX])], ['new', SH('c', 'sep', [AX, AX])], ['mat', 0], ['shift', 0, ['s', 1.0]], ['scale', 1, ['s', 2.0]], ['reversed', 1]]},
+    {'family': 'history', 'ops': [['new', SH('c', 'uns', [AX, AX, AX], AX)], ['scaled', 0, ['s', 2.0]], ['shift', 0, ['v', [1.0, 0.0, 0.5]]], ['scale', 0, ['v', [2.0, 1.0, -1.0]]], ['reverse', 0]]},
+    {'family': 'history', 'ops': [['new', SH('c', 'reg', [[0.5, 0.5], [3, 2], [0.5, 0.5]])], ['new', SH('c', 'reg', [[0.5, 0.5], [3, 2], [0.5, 0.5]])], ['scale', 0, ['s', 2.0]],
+                                  ['shift', 0, ['v', [1.0, 1.0]]], ['scaled', 1, ['v', [2.0, -1.0]]], ['reverse', 1]]},
+    {'family': 'history', 'ops': [['new', SH('p', 'uns', [[1.0, 2.0, 3.0], [0.5, 1.0, 2.0]], [1.0, 2.0, 3.0])], ['new', SH('p', 'uns', [[1.0, 2.0, 3.0], [0.5, 1.0, 2.0]], [1.0, 2.0, 3.0])],
+                                  ['scale', 0, ['s', 2.0]], ['protate', 1, R345], ['reverse', 0]]},
     # D20: polar rotate
     {'family': 'history', 'ops': [['new', S('p', 'sep', [[1.0, 2.0], [0.0, 1.0, 2.0]])], ['protated', 0, R345], ['protate', 0, R345]]},
     {'family': 'history', 'ops': [['new', S('p', 'reg', [[0.5, 0.25], [3, 4], [1.0, -1.0]])], ['protate', 0, {'c': '0', 's': '1'}], ['scaled', 0, ['s', 2.0]]]},
@@ -569,12 +610,14 @@ DIRECTED = [
 
 def run(ctx):
     ctx.rule = ('(a) transformation histories over a store of live grids: a base grid (Cartesian 1-3 D or polar; regular / separated '
-                'incl. ragged, descending, unsorted / unstructured; stored weights none, scalar or per point), then 2-9 of copy, '
+                'incl. ragged, descending, unsorted / unstructured; stored weights none, scalar or per point; in 40 % of the histories '
+                'built from caller-owned arrays in which equal arrays are ONE object — same array for several axes, for delta and '
+                'zero, for weights and a column — and often a second grid from the very same arrays), then 2-9 of copy, '
                 'materialise-weights, scale(d) by scalars or per-axis vectors of either sign, shift(ed) by scalar or vector, '
                 'reverse(d), rotate(d) by Pythagorean angles (2-D; 3-D about rational unit axes), polar rotate; after EVERY op all '
                 'live grids are re-read (representation, stored weights, weights getter on a deep copy, points). Oracle: new points '
                 'are the affine images of the old points; weights scale by |J|, are kept by shift, travel with the points on reverse '
-                '— whether or not they had been cached; other grids untouched. (b) constructors: make_uniform_grid, make_focal_grid, '
+                '— whether or not they had been cached; other grids and the caller\'s arrays untouched. (b) constructors: make_uniform_grid, make_focal_grid, '
                 'make_focal_grid_from_pupil_grid (origin present; weights sum), supersample/subsample round trip and cell centring, '
                 'Cartesian->polar->Cartesian, polar shift. Model: `show`/`points` compared after every op. Non-trivial = at least '
                 'one transformation applied or a constructor clause evaluated; distinct by (family, op sequence with argument '
@@ -613,8 +656,11 @@ def run(ctx):
                     nd = st['before'][op[1]]['points'].shape[1]
                     b = [op[2][1]] * nd if op[2][0] == 's' else op[2][1]
                     ml = 'C11 %s %d %s' % (op[0], op[1], rat_list(b))
-                m = {'op': len(lines)}
-                lines.append(ml)
+                if isinstance(ml, list):
+                    lines += ml
+                else:
+                    lines.append(ml)
+                m = {'op': len(lines) - 1}
                 nlive = len(st['after'])
                 m['show'] = len(lines)
                 lines += ['C11 show %d' % k for k in range(nlive)]
@@ -623,6 +669,12 @@ def run(ctx):
                 m['n'] = nlive
                 marks.append(m)
             base_spec = case['ops'][0][1]
+            if base_spec.get('shared'):
+                ctx.count('histories-with-caller-arrays')
+                if len(case['ops']) > 1 and case['ops'][1][0] == 'new':
+                    ctx.count('two-grids-from-the-same-arrays')
+                if aliased(base_spec):
+                    ctx.count('aliased-constructor-inputs')
             ctx.count('grid:%s-%s-%dD' % (base_spec['sys'], base_spec['kind'], spec_ndim(base_spec)))
             ctx.count('weights:' + ('none' if base_spec['w'] is None else 'array' if isinstance(base_spec['w'], list) else 'scalar'))
             sig = ('history', tuple(o[0] + G_arg(o) for o in case['ops']), base_spec['sys'], base_spec['kind'], spec_ndim(base_spec))
